@@ -369,7 +369,7 @@ pub fn deepruns_main(tier: Tier, seed: u64, outfile: &str) -> i32 {
             run: (1 << 41) + 100 + run,
         });
     }
-    // this build differs from the main one in optimisation level and in debug assertions (on here): the key
+    // this build differs from the main one in optimisation level and in debug assertions (on in the main build, off here): the key
     // pairs of a few fixed seeds are handed to the main build, which compares them with its own
     for (i, (n, sd)) in cross_build_seeds(seed).iter().enumerate() {
         let d = crate::isolate::isolated(|| if *n == 512 { key_hashes::<V512>(*sd) } else { key_hashes::<V1024>(*sd) }, crate::isolate::run_timeout_s());
@@ -982,8 +982,8 @@ pub fn check(tier: Tier, seed: u64) -> i32 {
     match crate::props::run_deep_batch(PROP, tier, seed) {
         Ok(Some(o)) => {
             rep.absorb(o);
-            // the same seeds in this build (optimised, no debug assertions) and in the instrumented one
-            // (unoptimised, debug assertions on): a key pair depends on nothing but the seed
+            // the same seeds in this build (optimised, debug assertions on) and in the instrumented one
+            // (unoptimised, debug assertions off): a key pair depends on nothing but the seed
             let (theirs, rest): (Vec<_>, Vec<_>) = std::mem::take(&mut rep.stats.blobs).into_iter().partition(|(t, _)| *t >= CROSS_BUILD_TAG && *t < CROSS_BUILD_TAG + 16);
             rep.stats.blobs = rest;
             let seeds = cross_build_seeds(seed);
@@ -1007,7 +1007,7 @@ pub fn check(tier: Tier, seed: u64) -> i32 {
                         rep.violations.push(Violation {
                             property: PROP,
                             class: format!("keygen{} returned different key pairs for the same seed", n),
-                            detail: format!("seed {}: this build (optimised, debug assertions off) and the instrumented build (unoptimised, debug assertions on) disagree", hex(&sd)),
+                            detail: format!("seed {}: this build (optimised, debug assertions on) and the instrumented build (unoptimised, debug assertions off) disagree", hex(&sd)),
                             replay: json!({"kind": "cross-build", "n": n, "seed_hex": hex(&sd), "other_build_digest_hex": hex(&d)}),
                             run: (1 << 41) + 30 + i as u64,
                         });
@@ -1039,7 +1039,7 @@ pub fn check(tier: Tier, seed: u64) -> i32 {
         let o = neighbourhood::<V1024>(r.seed32(), w);
         rep.absorb(o);
     }
-    rep.rule = "a case is one keygen(seed) call: (i) inside a seeded multi-thread plan where every seed occurs 2-3 times on the same or different baton-scheduled threads (pre-emption at the draws of keygen's seed-expanded stream and of concurrent sign calls), with or without a simulator stream installed behind the ambient seam, plus once in a fresh child process; (i'') for three seeds, in this build and in the instrumented build (unoptimised, debug assertions on); (i') the same in a deep batch (instrumented build: pre-emption at function entries, so also between two loads of shared state inside the sampler); (ii) in a sequence of keygens on one thread - mixed variants and unrelated seeds, or one variant and related seeds (a base seed, four single-bit neighbours, a seed sharing its first 24 bytes, one sharing its last 24 bytes, the base again) - each compared with a fresh process; (in both kinds of sequence every look the code takes at a clock may find that 61 s, 10 min or 2 h have passed - fault T2, through the harness's own clock_gettime; the reference generation runs on an undisturbed clock); (ii') in a long single-thread history (72 Falcon-512 / 34 Falcon-1024 pairs in quick, 400 / 160 in thorough) through SecretKey::generate_from_seed + PublicKey::from_secret_key with a sign call now and then, each pair compared with keygen(seed) in a fresh process; (iii) three times in fresh processes for five edge seeds per variant (all zero, all ones, a single 01 byte first or last, 55..55) and for the seeds that need the most ntru_gen attempts (adaptively chosen from the neighbourhoods, and pinned in corpus/C15/hard-seeds.txt); (iv) on one of the 256 single-bit neighbours of a sampled base seed (the neighbourhood of each sampled base seed is enumerated completely; base seeds are sampled). Non-trivial for (i): the call was pre-empted mid-call; for (ii): every neighbour. Distinct = distinct (schedule trace, thread, seed) resp. distinct key pairs".into();
+    rep.rule = "a case is one keygen(seed) call: (i) inside a seeded multi-thread plan where every seed occurs 2-3 times on the same or different baton-scheduled threads (pre-emption at the draws of keygen's seed-expanded stream and of concurrent sign calls), with or without a simulator stream installed behind the ambient seam, plus once in a fresh child process; (i'') for three seeds, in this build (optimised, debug assertions on) and in the instrumented build (unoptimised, debug assertions off); (i') the same in a deep batch (instrumented build: pre-emption at function entries, so also between two loads of shared state inside the sampler); (ii) in a sequence of keygens on one thread - mixed variants and unrelated seeds, or one variant and related seeds (a base seed, four single-bit neighbours, a seed sharing its first 24 bytes, one sharing its last 24 bytes, the base again) - each compared with a fresh process; (in both kinds of sequence every look the code takes at a clock may find that 61 s, 10 min or 2 h have passed - fault T2, through the harness's own clock_gettime; the reference generation runs on an undisturbed clock); (ii') in a long single-thread history (72 Falcon-512 / 34 Falcon-1024 pairs in quick, 400 / 160 in thorough) through SecretKey::generate_from_seed + PublicKey::from_secret_key with a sign call now and then, each pair compared with keygen(seed) in a fresh process; (iii) three times in fresh processes for five edge seeds per variant (all zero, all ones, a single 01 byte first or last, 55..55) and for the seeds that need the most ntru_gen attempts (adaptively chosen from the neighbourhoods, and pinned in corpus/C15/hard-seeds.txt); (iv) on one of the 256 single-bit neighbours of a sampled base seed (the neighbourhood of each sampled base seed is enumerated completely; base seeds are sampled). Non-trivial for (i): the call was pre-empted mid-call; for (ii): every neighbour. Distinct = distinct (schedule trace, thread, seed) resp. distinct key pairs".into();
     rep.assumptions = vec![
         "keygen is stopped after 3000 ntru_gen attempts' worth of draws (bounded liveness; a correct tree needs 13 resp. 24 attempts on average)".into(),
         "an ambient-entropy draw inside keygen is recorded as a probe, not an alarm; only differing key bytes are".into(),
